@@ -85,12 +85,20 @@ def hasCycleB (n : Nat) (adj : Nat → List Nat) : Option Bool := do
   let rm ← reachMatrix n adj
   pure ((List.range n).any fun u => (adj u).any fun v => reachB rm v u)
 
-/-- every node of `c` is followed (cyclically) by one of its successors -/
+/-- consecutive nodes of the list are joined by edges `x → y` -/
+def isChain (adj : Nat → List Nat) : List Nat → Bool
+  | [] => true
+  | [_] => true
+  | x :: y :: l => (adj x).contains y && isChain adj (y :: l)
+
+/-- every node of `c` is followed by one of its successors, and the last one by the first -/
 def IsClosedChain (adj : Nat → List Nat) (c : List Nat) : Prop :=
-  c ≠ [] ∧ ∀ k, k < c.length → c.getD ((k + 1) % c.length) 0 ∈ adj (c.getD k 0)
+  match c with
+  | [] => False
+  | h :: t => isChain adj (h :: t ++ [h]) = true
 
 instance (adj : Nat → List Nat) (c : List Nat) : Decidable (IsClosedChain adj c) := by
-  unfold IsClosedChain; infer_instance
+  unfold IsClosedChain; cases c <;> infer_instance
 
 /-- `c` is a simple cycle of the graph: distinct nodes `< n`, closed chain of edges;
     in an undirected graph a single node (self-loop) or at least three nodes -/
